@@ -1,10 +1,28 @@
-(* Property C10: FST files load faithfully.  Pinned: the value path - fst::SignalWriter::{add_change, finish} and
-   expand_entries (the on-the-fly widening), for bit-vector signals of width >= 1 (fst_writer_spec) and for real and
-   string signals (fst_writer_rs_spec).  The FST container (blocks,
-   compression, hierarchy bytes, time chain) is decoded by the dependency fst-reader and is not modelled; the
-   hierarchy and whole-file behaviour are decided by the file-level generators (MANIFEST level_note). *)
+(* Property C10: FST files load faithfully.  The FST container (blocks, compression, hierarchy bytes, time chain) is
+   decoded by the dependency fst-reader, which hands wellen (a) a stream of hierarchy entries and a header, (b) the time
+   table and (c) value-change callbacks (time, handle, value).  Pinned is everything wellen's fst.rs does with them:
+   (a) fst_design_calls / fst_read_hierarchy_design (Proofs/FstHierProofs.v): an entry stream that renders a list of
+   declarations - each scope preceded by its source stems, each variable by its VHDL infos and enum table references,
+   path names and enum tables where they occur - yields exactly the builder calls of those declarations: kinds, directions,
+   component, width, bit range and array scopes (C09's parse_name), the variable's handle as its signal (aliases share it:
+   var_call_signal), the first stem of each kind / the first type name / the first enum reference given, resolved as known
+   at that point of the stream; attributes never reach a later declaration.  The conversion tables are translated from
+   the source on every run (Generated/Consts.v).  convert_timescale_spec: exponents -15..9 give factor x unit = 10^e s.
+   (b, c) fst_load_signals_spec (Proofs/FstDispatchProofs.v): however the callbacks of different signals are interleaved -
+   within a time step, across value-change blocks - every requested signal is built from exactly its own callbacks in
+   their order, each under the index of the first time-table entry not smaller than its time (first_ge_sorted: in a sorted
+   table containing the time that is the first entry equal to it, also when a time is listed twice);
+   fst_writer_spec / fst_writer_rs_spec: the signal built from those changes reports exactly them - fst::SignalWriter::
+   {add_change, finish} and expand_entries (the on-the-fly widening), for bit-vector signals of width >= 1 and for real
+   and string signals - in whatever order 2-, 4- and 9-state values first appear.
+   MODELLED, not verified: the dependency (A-fst: it decodes the container and calls back per signal in time order),
+   String::from_utf8_lossy on string values (A-utf8), the builder (C08).  The run ties the model to the code on generated
+   and corpus FST files: the harness reads each file with fst-reader directly and through wellen, and the extracted
+   model, run on the former, must print what wellen reports (MANIFEST level_note). *)
 From WV Require Import Model.Base Model.Bits Model.WaveMem Model.FstLoad Proofs.BitsProofs Proofs.StoreProofs
-  Proofs.EncoderProofs Proofs.FstProofs Proofs.RealStringEnc Proofs.FstRealString.
+  Proofs.EncoderProofs Proofs.FstProofs Proofs.RealStringEnc Proofs.FstRealString
+  Generated.Consts Model.Hierarchy Model.VcdHeader Model.FstHier Proofs.FstHierProofs Proofs.FstDispatchProofs.
+From Coq Require Import Sorted.
 Open Scope N_scope.
 
 (* the signal built from the changes the FST reader delivers reports exactly those changes (time index, least kind,
@@ -40,6 +58,85 @@ Check fst_writer_rs_spec :
   = Ok (map (fun a : N * list byte => (fst a, if str then KString else KReal, snd a))
             (gdedup (map (fun c : N * fst_value => (fst c, fv_payload (snd c))) changes))).
 
+(* (a) the hierarchy *)
+Check fst_design_calls :
+  forall debug ds st st' cs, fs_attrs st = [] -> design_calls st ds = Some (st', cs) ->
+  fst_run debug st (concat (map entries_of ds)) = Ok (st', cs) /\ fs_attrs st' = [].
+Check fst_read_hierarchy_design :
+  forall debug ds st' cs, design_calls fs_init ds = Some (st', cs) ->
+  fst_read_hierarchy debug (concat (map entries_of ds)) = Ok cs.
+Check var_call_signal :
+  forall st tpe dir nm len h attrs st' cs,
+  decl_calls st (DVar tpe dir nm len h attrs) = Some (st', cs) ->
+  exists pre vn vt d enc idx en tn post,
+    cs = pre ++ [FcVar vn vt d enc idx h en tn] ++ post /\
+    Forall (fun c => match c with FcVar _ _ _ _ _ _ _ _ => False | _ => True end) (pre ++ post).
+Check scope_attrs_first :
+  forall debug (l : list src) d i,
+  f_scope_attrs debug (rev (map src_attr l)) d i = Ok (or_else (first_src false l) d, or_else (first_src true l) i).
+Check var_attrs_first :
+  forall debug (l : list vattr) t tn en,
+  f_var_attrs debug (rev (map vattr_attr l)) t tn en
+  = Ok (or_else (first_type_name l) tn, merged_type l t, or_else (first_enum l) en).
+Check convert_timescale_spec :
+  forall debug (e : Z), (-15 <= e <= 9)%Z ->
+  exists f u, convert_timescale debug e = Ok (f, u) /\ f * 10 ^ (3 * u) = 10 ^ Z.to_N (e + 15) /\ u <= 5 /\
+              1 <= f /\ (f <= 100 \/ u = 5).
+Check convert_timescale_below : forall debug (e : Z), (e < -15)%Z -> convert_timescale debug e = Panic.
+Check fst_design_example.
+Check vhdl_merge_translated : forall dt, dt < 256 -> vhdl_merge dt = n_get fst_vhdl_merge_tab dt.
+
+(* the declarations' meaning, spelled out *)
+Check (eq_refl : decl_calls = fun st d =>
+  match d with
+  | DPath id nm => Some (mk_fs (fs_attrs st) ((id, nm) :: fs_paths st) (fs_enums st) (fs_nenums st), [])
+  | DEnumDef nm h m =>
+      Some (mk_fs (fs_attrs st) (fs_paths st) ((h, fs_nenums st) :: fs_enums st) (S (fs_nenums st)), [FcEnum nm m])
+  | DUp => Some (st, [FcPop])
+  | DComment | DAttrEnd => Some (st, [])
+  | DScope tpe nm comp stems =>
+      match mapM_opt (resolve_stem st) stems, n_get fst_scope_tab tpe with
+      | Some ss, Some t => Some (st, [FcScope nm (Some comp) t (first_src false ss) (first_src true ss)])
+      | _, _ => None
+      end
+  | DVar tpe dir nm len h attrs =>
+      match mapM_opt (resolve_vattr st) attrs, parse_name nm, n_get fst_var_tab tpe, n_get fst_dir_tab dir with
+      | Some vs, Ok (var_name, index, scopes), Some vt, Some d =>
+          Some (st, map (fun s => FcScope s None vhdl_array_code None None) scopes
+                    ++ [FcVar var_name (merged_type vs vt) d (var_enc tpe len) index h (first_enum vs) (first_type_name vs)]
+                    ++ map (fun _ => FcPop) scopes)
+      | _, _, _, _ => None
+      end
+  end).
+
+(* (b, c) the value changes *)
+Check fst_load_signals_spec :
+  forall debug tt ids tpes cbs sigs,
+  NoDup ids -> length tpes = length ids -> StronglySorted N.le (map cb_time cbs) ->
+  fst_load_signals debug tt ids tpes cbs = Ok sigs ->
+  length sigs = length ids /\
+  forall p h tpe, nth_error ids p = Some h -> nth_error tpes p = Some tpe ->
+    exists sw, sw_run (sw_new tpe) (changes_for tt h cbs) = Ok sw /\ nth_error sigs p = Some (sw_finish sw).
+Check first_ge_sorted :
+  forall tt time, Sorted N.le tt -> In time tt -> nth_error tt (first_ge tt time) = Some time.
+Check (eq_refl : changes_for = fix changes_for tt h cbs :=
+  match cbs with
+  | [] => []
+  | (time, h', v) :: r =>
+    if Nat.eqb h' h then (N.of_nat (first_ge tt time), v) :: changes_for tt h r else changes_for tt h r
+  end).
+Check fst_load_example.
+
+Print Assumptions fst_design_calls.
+Print Assumptions fst_read_hierarchy_design.
+Print Assumptions var_call_signal.
+Print Assumptions scope_attrs_first.
+Print Assumptions var_attrs_first.
+Print Assumptions convert_timescale_spec.
+Print Assumptions convert_timescale_below.
+Print Assumptions fst_load_signals_spec.
+Print Assumptions first_ge_sorted.
+Print Assumptions vhdl_merge_translated.
 Print Assumptions fst_writer_spec.
 Print Assumptions fst_writer_rs_spec.
 Print Assumptions expand_one_stored.
